@@ -15,7 +15,7 @@ from rv.refmodel import grid as G
 PROP = "C12"
 RULE = ("cases = {2D vorticity, 3D velocity, general vorticity} x L in {2pi,1,3,0.37,11} x N odd/even x injection mode k x gamma x nu x lambda x order 1-4 x dt x n steps; every "
         "recorded time level is one event; distinct = (monitor, class, L==2pi?, N parity, k, order, step bucket); non-trivial = gamma != 0")
-REQUIRED = {"laminar": {"quick": 200, "thorough": 1500}, "zero_injection": {"quick": 10, "thorough": 60}, "general_equals_kolmogorov": {"quick": 10, "thorough": 60},
+REQUIRED = {"laminar": {"quick": 200, "thorough": 1500}, "zero_injection": {"quick": 10, "thorough": 40}, "general_equals_kolmogorov": {"quick": 10, "thorough": 30},
             "forced_stepper": {"quick": 40, "thorough": 200}}
 ASSUMPTIONS = ["injection wavenumber strictly below Nyquist", "float64"]
 TIMEOUT = {"quick": 900, "thorough": 3000}
